@@ -3460,3 +3460,47 @@ def abort_streams(pid):
 
 for _pid in ("C17", "C15", "C01"):
     P.PROPS[_pid]["streams"].append(abort_streams(_pid))
+
+
+# ---------------------------------------------------------------- every property through the other entry points
+def entry_matrix(pid, proj=None, pickles=None):
+    """the documents of the acceptance corpus and generated documents, not parsed on their own but (a) as the second document
+    of one parser / matcher / builder after a parse that was cut short, (b) as a later source of one stream after such a
+    source: the property's projection of the result, model against implementation"""
+    def stream(ctx):
+        docs = P.corpus_sources() + [s for s, _ in S.gen_sources(S.n_for(30, 400), salt=pid + "/matrix")]
+        reqs = []
+        for i, d in enumerate(docs):
+            a = ABORTING_DOCS[i % len(ABORTING_DOCS)]
+            if pickles is None:
+                reqs.append(("parse_history", ["en", [[i % 2 == 1, a], [False, d]]]))
+            reqs.append(("events", [pickles is None and i % 3 == 0, pickles is None, True, False, [["a.feature", a], ["d.feature", d]]]))
+
+        def pj(res, req=None):
+            if isinstance(res, list):
+                return [proj(x) for x in res] if proj else res
+            if isinstance(res, dict) and "envelopes" in res:
+                if pickles is not None:
+                    return [pickles(e["pickle"]) for e in res["envelopes"] if "pickle" in e]
+                if proj is not None:
+                    def one(e):
+                        if "gherkinDocument" not in e:
+                            return e
+                        try:
+                            return proj({"ok": e["gherkinDocument"]})
+                        except (KeyError, TypeError):      # a projection that also reads the matcher / builder state of a parse result
+                            return e
+                    return [one(e) for e in res["envelopes"] if "pickle" not in e]
+            return res
+        return differential("entry-matrix/" + pid, reqs, proj=pj, nontrivial=lambda q, x: canon(q[1])[:300], classify=lambda q, x: q[0], exhaustive=False)
+    stream.__name__ = "entry_matrix_" + pid
+    stream.__doc__ = entry_matrix.__doc__
+    return stream
+
+
+for _pid, _pj in (("C01", _typed_outcome), ("C02", lambda x, req=None: outcome(x)), ("C03", P.p_ast_text), ("C04", P.p_locations), ("C05", P.p_whole),
+                  ("C12", P.p_cells), ("C13", P.p_docstrings), ("C14", P.p_whole), ("C15", P.p_whole), ("C16", P.p_whole), ("C18", P.p_whole)):
+    P.PROPS[_pid]["streams"].append(entry_matrix(_pid, proj=_pj))
+for _pid, _pk in (("C06", pk_sources), ("C07", pk_steps), ("C08", pk_tags), ("C09", pk_interp), ("C10", pk_types), ("C11", pk_ids)):
+    P.PROPS[_pid]["streams"].append(entry_matrix(_pid, pickles=_pk))
+P.PROPS["C17"]["streams"].append(entry_matrix("C17"))
